@@ -560,3 +560,277 @@ def explore_c06(ctx, res, replay_ops=None):
 PROPS["C06"] = dict(lean=["ChfVerif.Props.C06"], explore=explore_c06,
                     trusted=["as C01; compliance and the quantifier are the Lean predicates of theorem C06 evaluated by the driver",
                              "the grant oracle (second sentence of C06) is computed from the implementation's own trace"])
+
+
+# ------------------------------------------------------------------ C12 (API contract)
+
+def _state_part(line):
+    """everything of an observation that describes state (balances + per-subscriber dumps)"""
+    i = line.find(" bal=")
+    return line[i:] if i >= 0 else line
+
+
+def explore_c12(ctx, res, replay_ops=None):
+    n = n_for(ctx, 700, 6000)
+    r = chf_run(ctx, res, n, replay_ops, gen_extra=("-mode", "api"))
+    prev_state = None
+    known = {}        # supi -> set(live sids) as the implementation acknowledged them
+    uri = {}
+    for i, (op, im, mo) in enumerate(zip(r.ops, r.impl, r.model)):
+        t = op.split()
+        kind = t[1]
+        if kind == "reset":
+            prev_state, known, uri = None, {}, {}
+            continue
+        if kind in ("acct", "credit", "end"):
+            if kind != "end" and prev_state is not None:
+                prev_state = None      # store changed behind the API; re-base on the next observation
+            continue
+        o = ChfObs(strip_annot(im))
+        res.evaluations += 1
+        if not o.ok:
+            res.violation("oracle", "unparsable observation (crash?)", _chf_history(r.ops, i) + ["# impl: " + im[:500]])
+            prev_state = None
+            continue
+        st = o.status()
+        res.dist["%s:%d" % (kind, st)] += 1
+        hist = lambda: _chf_history(r.ops, i) + ["# impl: " + strip_annot(im)[:1500]]
+        state = _state_part(strip_annot(im))
+        if st // 100 == 4:
+            res.nontrivial.add(op)
+            if prev_state is not None and state != prev_state:
+                res.violation("oracle", "C12: a request answered %d changed state (accounts, reservations or records)" % st, hist())
+        if st // 100 == 5 or st == 0:
+            res.violation("oracle", "C12: answered %d" % st, hist())
+        if kind == "create":
+            rq = _parse_req(t[2:])
+            if st == 201:
+                loc = o.f.get("loc")
+                sids = set(known.get(rq["supi"], set()))
+                # the Location reference must be a key of the subscriber's session map
+                cdr = o.ues.get(rq["supi"], {}).get("cdr", "-")
+                keys = [] if cdr == "-" else [x.split(">")[0] for x in cdr.split(";")]
+                if loc in (None, "?") or loc not in keys:
+                    res.violation("oracle", "C12: create answered 201 but the Location reference %s does not designate a session" % loc, hist())
+                if o.f.get("seq") != rq["seq"] or o.f.get("ts") != "1":
+                    res.violation("oracle", "C12: create response does not echo the sequence number / carries no timestamp", hist())
+                known.setdefault(rq["supi"], set()).add(loc)
+                uri[rq["supi"]] = True
+            elif st // 100 == 2:
+                res.violation("oracle", "C12: create answered %d, expected 201" % st, hist())
+        elif kind in ("update", "release"):
+            sid = t[2]
+            rq = _parse_req(t[3:])
+            live = sid in known.get(rq["supi"], set())
+            if not live and st // 100 != 4:
+                res.violation("oracle", "C12: %s naming an unknown subscriber/session reference answered %d" % (kind, st), hist())
+            if live:
+                if kind == "update":
+                    if st != 200 or o.f.get("seq") != rq["seq"] or o.f.get("ts") != "1":
+                        res.violation("oracle", "C12: update answered %d seq=%s ts=%s" % (st, o.f.get("seq"), o.f.get("ts")), hist())
+                else:
+                    if st != 204 or o.f.get("body") != "0":
+                        res.violation("oracle", "C12: release answered %d body=%s" % (st, o.f.get("body")), hist())
+                    known[rq["supi"]].discard(sid)
+        elif kind == "recharge":
+            info = bytes.fromhex(t[2] if t[2] != "-" else "").decode(errors="replace")
+            parts = info.split("_")
+            ok_form = len(parts) == 2 and re.fullmatch(r"[+-]?\d+", parts[1] or "x") and -2**31 <= int(parts[1]) < 2**31
+            sup_hex = parts[0].encode().hex() if parts[0] else "-"
+            if ok_form and sup_hex in known:
+                exp = "%s:%d" % (("/n/" + parts[0]).encode().hex(), int(parts[1]))
+                if st != 204 or o.f.get("notif") != exp:
+                    res.violation("oracle", "C12: recharge of a known subscriber answered %d notif=%s (expected 204, %s)" % (
+                        st, o.f.get("notif"), exp), hist())
+                res.nontrivial.add(op)
+            else:
+                if st // 100 != 4 or o.f.get("notif") != "-":
+                    res.violation("oracle", "C12: malformed/unknown recharge answered %d notif=%s" % (st, o.f.get("notif")), hist())
+        res.traces_validated += 1
+        res.sample({"op": op[:300], "impl": strip_annot(im)[:160]})
+        prev_state = state
+    res.rule = ("chf histories in 'api' mode: 25% of updates/releases name an unknown, mistyped, foreign or stale (released) "
+                "reference or an unknown subscriber; recharges with well-formed, malformed and unknown path parameters; "
+                "oracle on the implementation's trace: status/Location/echo/timestamp per request, byte-identical state "
+                "dump across every 4xx, exactly one notification per accepted recharge; non-trivial = rejected request or "
+                "accepted recharge")
+
+
+import re  # noqa: E402
+
+PROPS["C12"] = dict(lean=["ChfVerif.Props.C12"], explore=explore_c12,
+                    trusted=["gin routing/JSON rendering, openapi client (h2c notification) are modelled; the notification sink is part of the harness"])
+
+
+# ------------------------------------------------------------------ C10 (unique references)
+
+def explore_c10(ctx, res, replay_ops=None):
+    n = n_for(ctx, 700, 6000)
+    r = chf_run(ctx, res, n, replay_ops, gen_extra=("-mode", "names"))
+    live = {}       # reference -> (supi, chargingId) of the create that returned it
+    lsn_of = {}
+    for i, (op, im, mo) in enumerate(zip(r.ops, r.impl, r.model)):
+        t = op.split()
+        kind = t[1]
+        if kind == "reset":
+            live = {}
+            continue
+        if kind not in ("create", "update", "release"):
+            continue
+        o = ChfObs(strip_annot(im))
+        if not o.ok:
+            res.violation("oracle", "unparsable observation", _chf_history(r.ops, i))
+            continue
+        res.evaluations += 1
+        hist = lambda: _chf_history(r.ops, i) + ["# impl: " + strip_annot(im)[:1500]]
+        if kind == "create" and o.status() == 201:
+            rq = _parse_req(t[2:])
+            loc = o.f.get("loc")
+            res.dist["create"] += 1
+            if loc in live:
+                res.violation("oracle", "C10: create returned reference %s which still designates a live session of %s" % (
+                    loc, live[loc][0]), hist())
+            # the record opened by this create: the last record of the subscriber
+            recs = o.ues.get(rq["supi"], {}).get("rec", "-").split("|")
+            live[loc] = (rq["supi"], recs[-1].split(",u=")[0] if recs else "?")
+            res.nontrivial.add(loc)
+            res.sample({"create": op[:200], "reference": bytes.fromhex(loc).decode(errors="replace") if loc not in ("-", None) else loc})
+        elif kind in ("update", "release") and o.status() // 100 == 2:
+            sid = t[2]
+            rq = _parse_req(t[3:])
+            if sid in live:
+                res.traces_validated += 1
+                res.dist[kind + "-on-live-ref"] += 1
+                # the usage must land in a record carrying this reference (identity fields of that create)
+                want_lsns = [str(c[5]) for u in rq["usages"] for c in u["conts"]]
+                recs = o.ues.get(rq["supi"], {}).get("rec", "-").split("|")
+                holder = [x for x in recs if all(("+" + l + "/" in "+" + x.split(",u=")[1].replace("~", "+").replace(";", "+")) or
+                                                 ("~" + l + "/" in x) for l in want_lsns)] if want_lsns else recs
+                ok = any(x.startswith("sid=" + sid + ",") for x in holder) if want_lsns else True
+                if not ok:
+                    res.violation("oracle", "C10: update addressed to %s was not recorded in a record of that session" % sid, hist())
+                if kind == "release":
+                    live.pop(sid, None)
+    res.rule = ("chf histories in 'names' mode: SUPIs that are prefixes of one another (imsi-1, imsi-12, imsi-, imsi-1-), "
+                "consumer names ending in digits / empty / containing '-' (a1, a, '', 10, -1, smf-0), 2-4 sessions per subscriber, "
+                "interleaved updates and releases; oracle: every returned reference differs from all live ones, and usage sent "
+                "to a live reference lands in a record carrying that reference; non-trivial/distinct = returned references")
+
+
+PROPS["C10"] = dict(lean=["ChfVerif.Props.C10"], explore=explore_c10,
+                    trusted=["concurrency (atomic counter, LoadOrStore) is outside this sequential model — see C09"])
+
+
+# ------------------------------------------------------------------ C02 (usage recorded exactly once)
+
+def _rec_usage(rec):
+    """[(rg, upf, [container strings])] of one dumped record"""
+    u = rec.split(",u=", 1)[1]
+    out = []
+    if u == "-":
+        return out
+    for item in u.split(";"):
+        rg, upf, cs = item.split("~")
+        out.append((rg, upf, [c for c in cs.split("+") if c]))
+    return out
+
+
+def explore_c02(ctx, res, replay_ops=None):
+    n = n_for(ctx, 700, 6000)
+    r = chf_run(ctx, res, n, replay_ops)
+    expect = {}     # (supi, sid) -> [container "lsn/total/up/down/ssu" …] in report order
+    ident = {}      # (supi, sid) -> identity prefix of the record at creation
+    released = set()
+    for i, (op, im, mo) in enumerate(zip(r.ops, r.impl, r.model)):
+        t = op.split()
+        kind = t[1]
+        if kind == "reset":
+            expect, ident, released = {}, {}, set()
+            continue
+        if kind not in ("create", "update", "release"):
+            continue
+        o = ChfObs(strip_annot(im))
+        if not o.ok:
+            res.violation("oracle", "unparsable observation", _chf_history(r.ops, i))
+            continue
+        res.evaluations += 1
+        hist = lambda: _chf_history(r.ops, i) + ["# impl: " + strip_annot(im)[:2500]]
+        if o.status() // 100 == 2:
+            if kind == "create":
+                rq = _parse_req(t[2:])
+                sid = o.f.get("loc")
+            else:
+                rq = _parse_req(t[3:])
+                sid = t[2]
+            key = (rq["supi"], sid)
+            conts = ["%d/%d/%d/%d/%d" % (c[5], c[1], c[2], c[3], c[4]) for u in rq["usages"] for c in u["conts"]]
+            expect.setdefault(key, []).extend(conts)
+            if conts:
+                res.nontrivial.add(op)
+            if kind == "release":
+                released.add(key)
+        # judge every session of every subscriber after every operation
+        got = {}
+        for supi, u in o.ues.items():
+            if u["rec"] == "-":
+                continue
+            for rec in u["rec"].split("|"):
+                f = dict(x.split("=", 1) for x in rec.split(",u=")[0].split(","))
+                k = (supi, f["sid"])
+                got.setdefault(k, []).extend(c for (_, _, cs) in _rec_usage(rec) for c in cs)
+                idp = "sub=%s,cid=%s,nf=%s" % (f["sub"], f["cid"], f["nf"])
+                if k in ident and ident[k] != idp:
+                    res.violation("oracle", "C02: identity fields of the record of session %s changed" % f["sid"], hist())
+                ident.setdefault(k, idp)
+                if f["sub"] != "1." + supi[10:]:
+                    res.violation("oracle", "C02: record of %s carries subscriber identity %s" % (supi, f["sub"]), hist())
+                if k in released and rec == u["rec"].split("|")[-1] and f["cause"] != "0":
+                    pass
+        res.traces_validated += 1
+        for k, want in expect.items():
+            if got.get(k, []) != want:
+                res.violation("oracle", "C02: usage containers recorded for session %s differ from those reported "
+                              "(exactly once, in order): recorded %s, reported %s" % (k[1], got.get(k, [])[:12], want[:12]), hist())
+                break
+        for k in got:
+            if k not in expect and got[k]:
+                res.violation("oracle", "C02: containers recorded under a session that never reported them: %s" % (k,), hist())
+                break
+        res.dist[kind] += 1
+        res.sample({"op": op[:240]})
+    # timestamp stream
+    rts = ctx.stream("conv", n_for(ctx, 400, 5000))
+    reads, ridx = [], []
+    for i, (op, im, mo) in enumerate(zip(rts.ops, rts.impl, rts.model)):
+        t = op.split()
+        if t[1] != "ts":
+            res.outside_domain["plmn"] += 1
+            continue
+        res.evaluations += 1
+        if im != mo:
+            res.disagreements += 1
+            res.violation("correspondence", "TimeStampToCdr: model and implementation differ", [op, "# impl: " + im, "# model: " + mo],
+                          found_input=False)
+        if im.startswith("ok "):
+            reads.append("conv read " + im.split()[1])
+            ridx.append(i)
+        else:
+            res.violation("oracle", "TimeStampToCdr failed", [op, "# impl: " + im])
+    for i, o in zip(ridx, core.driver_run(reads) if reads else []):
+        t = rts.ops[i].split()
+        y, mo_, d, h, mi, s, tz = [int(x) for x in t[2:9]]
+        want = "ok %d %d %d %d %d %d %d" % (y % 100, mo_, d, h, mi, s, tz // 60 if tz >= 0 else -((-tz) // 60))
+        res.traces_validated += 1
+        res.dist["tz%s" % ("+" if tz >= 0 else "-") + ("hh" if tz % 3600 == 0 else "hh:mm")] += 1
+        if o != want:
+            res.violation("oracle", "C02: the BCD timestamp written for %s reads back as %s" % (t[2:], o), [rts.ops[i], "# impl: " + rts.impl[i]])
+    res.rule = ("chf histories (1-2 subscribers, 1-2 concurrent sessions each, interleaved updates, releases; every container "
+                "carries a unique local sequence number as tracer): after every operation the containers found in the records "
+                "of each session (in Records order) must equal the containers reported for that session so far; plus "
+                "TimeStampToCdr on civil times x zone offsets (-14h..+14h in minutes, incl. +05:30/+05:45/-03:30) read back by "
+                "the Lean TS 32.298 reader; non-trivial = request carrying containers")
+
+
+PROPS["C02"] = dict(lean=["ChfVerif.Props.C02"], explore=explore_c02,
+                    trusted=["records are observed in memory (ChfUe.Records via the context API); the written file is covered by C03",
+                             "time.Now is not driven: TimeStampToCdr is exercised with constructed time.Time values"])
